@@ -60,7 +60,7 @@ func ruleSnapAtomic() *Rule {
 		Text: "NewSnapshotFile creates the snapshot in a directory made by os.MkdirTemp in snapshotDir with a \"tmp\" prefix, records that directory in snapshotFile.tmpDir and a data file inside it, and syncs and closes every other file it wrote (the metadata) before returning; " +
 			"(*snapshotFile).Close syncs then closes the data file and renames tmpDir to dir only for a file living in tmpDir, returns nil only after that, and a deferred function removes tmpDir unless the rename succeeded; " +
 			"(*snapshotFile).Discard removes only tmpDir and only for a non-nil file living in it.",
-		Floor: 8,
+		Floor: 6,
 		Run: func(p *Program) []Obligation {
 			obs := newObSet("SNAP-ATOMIC")
 			snapNew(p, obs)
@@ -212,13 +212,13 @@ func snapNew(p *Program, obs *obSet) {
 			case !hasS:
 				obs.fail(key, p.InstrPos(site.call), "the file is written and the snapshot file returned with no (*os.File).Sync of it after the write", v.Path())
 			case !v.ErrNil(sy.fr, sy.call):
-				obs.fail(key, p.InstrPos(site.call), "the snapshot file is returned although the result of Sync is not known to be nil", v.Path())
+				obs.failErr(key, p.InstrPos(site.call), "the snapshot file is returned although the result of Sync is not known to be nil", v.Path(), []*ssa.Call{sy.call})
 			case !hasC && stHas(st, "CX@"+w[0]):
 				obs.fail(key, p.InstrPos(site.call), "the file is closed before it was synced", v.Path())
 			case !hasC:
 				obs.fail(key, p.InstrPos(site.call), "the file is never closed on this path", v.Path())
 			case !v.ErrNil(cl.fr, cl.call):
-				obs.fail(key, p.InstrPos(site.call), "the snapshot file is returned although the result of Close is not known to be nil", v.Path())
+				obs.failErr(key, p.InstrPos(site.call), "the snapshot file is returned although the result of Close is not known to be nil", v.Path(), []*ssa.Call{cl.call})
 			default:
 				obs.ok(key, p.InstrPos(site.call), "write, Sync (nil), Close (nil) precede the return of the snapshot file")
 			}
@@ -316,7 +316,7 @@ func snapClose(p *Program, obs *obSet) {
 				default:
 					site := sites.at(x)
 					if !v.ErrNil(site.fr, site.call) {
-						obs.fail(key, pos, "the directory is renamed although the result of "+siteKey(site.fr, site.call)+" is not known to be nil", v.Path())
+						obs.failErr(key, pos, "the directory is renamed although the result of "+siteKey(site.fr, site.call)+" is not known to be nil", v.Path(), []*ssa.Call{site.call})
 					} else {
 						obs.ok(key, pos, what+" with a nil result precedes the rename on every path")
 					}
@@ -345,21 +345,23 @@ func snapClose(p *Program, obs *obSet) {
 		}
 		pos := p.InstrPos(in)
 		v.Note("%s: return nil", pos)
+		var involved []*ssa.Call
 		good := func(flag string) bool {
 			x, present := stGet(st, flag)
 			if !present {
 				return false
 			}
 			site := sites.at(x)
+			involved = append(involved, site.call)
 			return v.ErrNil(site.fr, site.call)
 		}
 		switch {
 		case !good("FS") || !good("FC"):
-			obs.fail(kRet, pos, "nil is returned on a path without a successful Sync followed by a successful Close of the data file", v.Path())
+			obs.failErr(kRet, pos, "nil is returned on a path without a successful Sync followed by a successful Close of the data file", v.Path(), involved)
 		case notInTmp && !inTmp:
 			obs.ok(kRet, pos, "a file outside tmpDir is synced and closed")
 		case !good("R"):
-			obs.fail(kRet, pos, "nil is returned for a file in the temporary directory on a path where os.Rename(tmpDir, dir) has not succeeded", v.Path())
+			obs.failErr(kRet, pos, "nil is returned for a file in the temporary directory on a path where os.Rename(tmpDir, dir) has not succeeded", v.Path(), involved)
 		default:
 			obs.ok(kRet, pos, "a file in tmpDir is synced, closed and its directory renamed")
 		}
@@ -439,7 +441,7 @@ func ruleSnapPick() *Rule {
 		ID: "SNAP-PICK",
 		Text: "(*persistentSnapshotStorage).SnapshotFile uses the LAST element (index len-1) of the slice returned by directories(); directories() keeps an entry only if it is a directory and its name matches a constant regexp " +
 			"that contains `snapshot-`, ends with `$`, matches \"snapshot-123\" and cannot match the names os.MkdirTemp produces for unfinished snapshots; it sorts the result before returning it. The comparator is deliberately not checked (DESIGN C13).",
-		Floor: 4,
+		Floor: 3,
 		Run: func(p *Program) []Obligation {
 			obs := newObSet("SNAP-PICK")
 			snapPickIndex(p, obs)
@@ -650,14 +652,9 @@ func snapPickDirectories(p *Program, obs *obSet) {
 	// filter and sort
 	kFilter := "entries kept only if they are directories matching the pattern in " + fname
 	kSort := "result sorted before it is returned in " + fname
-	var root *sframe
-	var sortSeen []*ssa.Call
 	s := &flowSpec{p: p, root: fn, keepCond: func(fr *sframe, c ssa.Value) bool { _, isCall := c.(*ssa.Call); return isCall }}
 	appends := 0
 	s.instr = func(v *flowVisit, in ssa.Instruction) (string, bool) {
-		if root == nil {
-			root = v.Fr.root()
-		}
 		st := v.St
 		if c := callNamed(in, "builtin.append"); c != nil {
 			if sl, ok := c.Type().Underlying().(*types.Slice); !ok || !isStringType(sl.Elem()) {
@@ -690,45 +687,50 @@ func snapPickDirectories(p *Program, obs *obSet) {
 			}
 			return st, false
 		}
-		if c := callNamed(in, "sort.Slice", "sort.SliceStable", "sort.Strings", "sort.Sort", "sort.Stable", "slices.Sort", "slices.SortFunc", "slices.SortStableFunc"); c != nil {
-			return stAdd(st, fmt.Sprintf("SORT@%d", len(sortCalls(&sortSeen, c)))), false
-		}
-		ret, ok := in.(*ssa.Return)
-		if !ok || v.Fr != root {
-			return st, false
-		}
-		succ, known := successReturn(ret)
-		if !known || !succ {
-			return st, true
-		}
-		sorted := false
-		for _, f := range stFlags(st, "SORT") {
-			i, _ := strconv.Atoi(f[0])
-			if sameSliceVar(sortSeen[i-1].Common().Args[0], ret.Results[0]) {
-				sorted = true
-			}
-		}
-		if sorted {
-			obs.ok(kSort, p.InstrPos(in), "every successful return passes a sort of the returned slice")
-		} else {
-			v.Note("%s: return", p.InstrPos(in))
-			obs.fail(kSort, p.InstrPos(in), "the list is returned on a path that has not sorted it: \"the last element\" is then not the most recent snapshot", v.Path())
-		}
-		return st, true
+		return st, false
 	}
 	s.RunFromEntry("")
 	if appends == 0 {
 		obs.undecided(kFilter, p.Pos(fn.Pos()), "no append of a name found")
 	}
-}
-
-// sortCalls interns c in list and returns the prefix ending at it (its length is c's 1-based id).
-func sortCalls(list *[]*ssa.Call, c *ssa.Call) []*ssa.Call {
-	for i, x := range *list {
-		if x == c {
-			return (*list)[:i+1]
+	// sorted: every path from the entry to a successful return passes a sort of the returned slice
+	var results []ssa.Value
+	isSuccess := func(fr *sframe, in ssa.Instruction) bool {
+		ret, ok := in.(*ssa.Return)
+		if !ok || in.Parent() != fn {
+			return false
+		}
+		succ, known := successReturn(ret)
+		return known && succ
+	}
+	for _, b := range fn.Blocks {
+		for _, in := range b.Instrs {
+			if isSuccess(nil, in) {
+				results = append(results, in.(*ssa.Return).Results[0])
+			}
 		}
 	}
-	*list = append(*list, c)
-	return *list
+	isSort := func(fr *sframe, in ssa.Instruction) bool {
+		c := callNamed(in, "sort.Slice", "sort.SliceStable", "sort.Strings", "sort.Sort", "sort.Stable", "slices.Sort", "slices.SortFunc", "slices.SortStableFunc")
+		if c == nil {
+			return false
+		}
+		for _, r := range results {
+			if sameSliceVar(c.Common().Args[0], r) {
+				return true
+			}
+		}
+		return false
+	}
+	breach, n, overflow := mustPassBetween(p, fn, nil, isSuccess, isSort, nil)
+	switch {
+	case overflow:
+		obs.undecided(kSort, p.Pos(fn.Pos()), "path exploration exceeded its bound")
+	case n == 0:
+		obs.undecided(kSort, p.Pos(fn.Pos()), "no successful return found")
+	case breach != nil:
+		obs.fail(kSort, p.InstrPos(breach.At), "the list is returned on a path that has not sorted it: \"the last element\" is then not the most recent snapshot", breach.Path)
+	default:
+		obs.ok(kSort, p.Pos(fn.Pos()), "every successful return passes a sort of the returned slice")
+	}
 }
